@@ -329,6 +329,8 @@ class ImplicitComponent(Component):
                     with self._call_user_function('apply_linear', protect_outputs=True):
                         self._apply_linear_wrapper(self._inputs, self._outputs,
                                                    d_inputs, d_outputs, d_residuals, mode)
+                    if mode == 'rev':
+                        self._zero_irrelevant_dinputs(d_inputs)
                 finally:
                     d_inputs.read_only = d_outputs.read_only = d_residuals.read_only = False
 
